@@ -94,8 +94,11 @@ type Req struct {
 
 // Case is one generated history.
 type Case struct {
-	// Avoid turns on the generator switches of the known findings (only those listed as known).
-	Avoid  bool `json:"avoid"`
+	// Avoid* turn on the generator switch of one known finding each (effective only while it is listed as known).
+	AvoidLive    bool `json:"avoidLive"`    // no showDeleted listing for a requester with hidden documents
+	AvoidCommits bool `json:"avoidCommits"` // commits / latestCommits only on documents the requester may read
+	AvoidTT      bool `json:"avoidTT"`      // time travel only to commits of readable documents
+	AvoidSub     bool `json:"avoidSub"`     // subscription bursts only write readable documents
 	RelIdx bool `json:"relIdx"` // index on Book.author
 	Ops    []Op `json:"ops"`
 }
@@ -496,7 +499,14 @@ func drawCheckpoint(t *rapid.T) Op {
 }
 
 func drawCase(t *rapid.T) Case {
-	c := Case{Avoid: rapid.Bool().Draw(t, "avoid"), RelIdx: rapid.Bool().Draw(t, "relIdx")}
+	c := Case{
+		// the livelock ends a case at the first showDeleted listing (a fifth of all listings): mostly avoided
+		AvoidLive:    rapid.IntRange(0, 9).Draw(t, "avoidLive") < 8,
+		AvoidCommits: rapid.Bool().Draw(t, "avoidCommits"),
+		AvoidTT:      rapid.Bool().Draw(t, "avoidTT"),
+		AvoidSub:     rapid.Bool().Draw(t, "avoidSub"),
+		RelIdx:       rapid.Bool().Draw(t, "relIdx"),
+	}
 	// a few documents first, authors before books so that books can point at them
 	nInit := rapid.IntRange(2, 6).Draw(t, "ninit")
 	for i := 0; i < nInit; i++ {
@@ -530,10 +540,12 @@ func evalCase(t hx.TB, c Case) {
 		st = &stats{}
 	}
 	labels := st.labelList()
-	if c.Avoid {
-		labels = append(labels, "switches-on")
-	} else {
-		labels = append(labels, "switches-off")
+	for name, on := range map[string]bool{"livelock": c.AvoidLive, "commits": c.AvoidCommits, "time-travel": c.AvoidTT, "subscription": c.AvoidSub} {
+		if on {
+			labels = append(labels, "case:switch-on:"+name)
+		} else {
+			labels = append(labels, "case:switch-off:"+name)
+		}
 	}
 	rec.Eval(c, st.nontrivial > 0, labels...)
 	rec.Check(t, c, f)
